@@ -74,7 +74,12 @@ func verifSandbox(setup ...func(parent string)) (parent, dest string, check func
 	}
 	before := outside()
 	pst, _ := os.Lstat(parent)
+	cwd, _ := os.Getwd()
+	rst, _ := os.Lstat(cwd)
 	check = func() {
+		if rst2, rerr := os.Lstat(cwd); rerr == nil && rst != nil {
+			vAssert(rst2.Mode() == rst.Mode(), "mode of the working directory changed (metadata applied to a path relative to it?)")
+		}
 		pst2, perr := os.Lstat(parent)
 		vAssert(perr == nil && pst2.Mode() == pst.Mode(), "type or mode of the directory that holds the destination changed")
 		vAssert(outside() == before, "an object was created or removed outside the destination directory")
@@ -100,7 +105,7 @@ func VerifC18_UnTar() {
 		max = 4
 	}
 	a := newVerifArchive()
-	a.entry(os.ModeDir | 0755)
+	a.entry(os.ModeDir | []os.FileMode{0755, 0711}[vChoose("root-mode", 2)]) // the root entry's metadata goes onto the destination, and only there
 	switch vChoose("shape", 4) {
 	case 0: // one file
 		a.filename(verifSymName("name", max))
@@ -134,6 +139,9 @@ func VerifC18_UnTar() {
 	a.goodbye()
 	_, dest, check := verifSandbox()
 	fs := NewLocalFS(dest, LocalFSOptions{})
+	if vChoose("literal-localfs", 2) == 1 {
+		fs = &LocalFS{Root: dest} // the exported field is the API too: a writer built without the constructor
+	}
 	err := UnTar(context.Background(), bytes.NewReader(a.buf.Bytes()), fs)
 	vCover("untar-returned")
 	if err == nil {
